@@ -976,6 +976,90 @@ theorem ops_exact_when_representable (a b c : Nat) (ha : FinBits a) (hb : FinBit
   · have := ((div_correct a b n1 n2 m1 m2 e1 e2 h1 h2 (nonzero_of_isZeroBits b n2 m2 e2 h2 hz)).1 (by rw [h, r1]; exact r2)).2
     rw [h, r1] at this; exact this
 
+/-! ## NaN, infinities, zeros: the IEEE-754 rules as the instance has them -/
+
+theorem decode_nanBits : decode nanBits = .nan := by decide
+
+theorem decode_withSign_zero (s : Bool) : decode (withSign s 0) = .fin s 0 (-1074) :=
+  decode_withSign_fin s 0 0 (-1074) (by decide) (by decide)
+
+/-- NaN operands give NaN -/
+theorem nan_propagates (a b : Nat) (h : decode a = .nan ∨ decode b = .nan) :
+    decode (add a b) = .nan ∧ decode (mul a b) = .nan ∧ decode (div a b) = .nan ∧ decode (fmod a b) = .nan := by
+  rcases h with h | h
+  · refine ⟨?_, ?_, ?_, ?_⟩ <;> (first | unfold add | unfold mul | unfold div | unfold fmod) <;> rw [h] <;> exact decode_nanBits
+  · refine ⟨?_, ?_, ?_, ?_⟩ <;> (first | unfold add | unfold mul | unfold div | unfold fmod) <;> rw [h] <;>
+      cases decode a <;> exact decode_nanBits
+
+/-- ∞ + ∞ = ∞, ∞ − ∞ = NaN, ∞ · ∞ = ±∞, ∞ / ∞ = NaN; ∞ with a finite operand; 0 · ∞ = NaN; x / ∞ = ±0 -/
+theorem infinity_rules (a b : Nat) :
+    (∀ n1 n2, decode a = .inf n1 → decode b = .inf n2 →
+      decode (add a b) = (if n1 = n2 then .inf n1 else .nan) ∧ decode (mul a b) = .inf (n1 != n2) ∧ decode (div a b) = .nan) ∧
+    (∀ n1 n2 m e, decode a = .inf n1 → decode b = .fin n2 m e →
+      decode (add a b) = .inf n1 ∧ decode (mul a b) = (if m = 0 then .nan else .inf (n1 != n2)) ∧ decode (div a b) = .inf (n1 != n2)) ∧
+    (∀ n1 m e n2, decode a = .fin n1 m e → decode b = .inf n2 →
+      decode (add a b) = .inf n2 ∧ decode (mul a b) = (if m = 0 then .nan else .inf (n1 != n2)) ∧
+      decode (div a b) = .fin (n1 != n2) 0 (-1074) ∧ fmod a b = a) := by
+  refine ⟨fun n1 n2 ha hb => ⟨?_, ?_, ?_⟩, fun n1 n2 m e ha hb => ⟨?_, ?_, ?_⟩, fun n1 m e n2 ha hb => ⟨?_, ?_, ?_, ?_⟩⟩
+  · unfold add; rw [ha, hb]; simp only []
+    by_cases h : n1 = n2
+    · subst h; simp [decode_withSign_inf]
+    · have : (n1 == n2) = false := by simpa using h
+      rw [this, if_neg h]; exact decode_nanBits
+  · unfold mul; rw [ha, hb]; exact decode_withSign_inf _
+  · unfold div; rw [ha, hb]; exact decode_nanBits
+  · unfold add; rw [ha, hb]; exact decode_withSign_inf _
+  · unfold mul; rw [ha, hb]; simp only []
+    by_cases h : m = 0
+    · rw [if_pos h, if_pos h]; exact decode_nanBits
+    · rw [if_neg h, if_neg h]; exact decode_withSign_inf _
+  · unfold div; rw [ha, hb]; exact decode_withSign_inf _
+  · unfold add; rw [ha, hb]; exact decode_withSign_inf _
+  · unfold mul; rw [ha, hb]; simp only []
+    by_cases h : m = 0
+    · rw [if_pos h, if_pos h]; exact decode_nanBits
+    · rw [if_neg h, if_neg h]; exact decode_withSign_inf _
+  · unfold div; rw [ha, hb]; exact decode_withSign_zero _
+  · unfold fmod; rw [ha, hb]
+
+/-- x / ±0 = ±∞ (0 / 0 = NaN); an exact zero sum is +0 unless both operands are −0; a zero product / quotient has the
+    xor of the signs -/
+theorem zero_rules (a b : Nat) (n1 n2 : Bool) (m1 m2 : Nat) (e1 e2 : ℤ)
+    (ha : decode a = .fin n1 m1 e1) (hb : decode b = .fin n2 m2 e2) :
+    (m2 = 0 → decode (div a b) = (if m1 = 0 then .nan else .inf (n1 != n2)) ∧ decode (fmod a b) = .nan) ∧
+    (valQ a + valQ b = 0 → decode (add a b) = .fin (n1 && n2) 0 (-1074)) ∧
+    (m1 = 0 ∨ m2 = 0 → decode (mul a b) = .fin (n1 != n2) 0 (-1074)) ∧
+    (m1 = 0 → m2 ≠ 0 → decode (div a b) = .fin (n1 != n2) 0 (-1074)) := by
+  refine ⟨fun h => ⟨?_, ?_⟩, fun h => ?_, fun h => ?_, fun h1 h2 => ?_⟩
+  · unfold div; rw [ha, hb]; simp only []; rw [if_pos h]
+    by_cases h1 : m1 = 0
+    · rw [if_pos h1, if_pos h1]; exact decode_nanBits
+    · rw [if_neg h1, if_neg h1]; exact decode_withSign_inf _
+  · unfold fmod; rw [ha, hb]; simp only []; rw [if_pos h]; exact decode_nanBits
+  · -- the integer sum is zero
+    set e := min e1 e2 with he
+    obtain ⟨j1, hj1⟩ := Int.eq_ofNat_of_zero_le (show 0 ≤ e1 - e by omega)
+    obtain ⟨j2, hj2⟩ := Int.eq_ofNat_of_zero_le (show 0 ≤ e2 - e by omega)
+    have hs : smant n1 m1 * 2 ^ (e1 - e).toNat + smant n2 m2 * 2 ^ (e2 - e).toNat = 0 := by
+      rw [valQ_smant a n1 m1 e1 ha, valQ_smant b n2 m2 e2 hb] at h
+      have h1 : e1 = (j1 : ℤ) + e := by omega
+      have h2 : e2 = (j2 : ℤ) + e := by omega
+      rw [hj1, hj2]; simp only [Int.toNat_natCast]
+      rw [h1, h2, ← zpow2_add, ← zpow2_add, zpow_natCast, zpow_natCast] at h
+      have hp := (two_zpow_pos e).ne'
+      have : (((smant n1 m1 * 2 ^ j1 + smant n2 m2 * 2 ^ j2 : ℤ)) : ℚ) * 2 ^ e = 0 := by push_cast; linarith
+      have := (mul_eq_zero.1 this).resolve_right hp
+      exact_mod_cast this
+    unfold add; rw [ha, hb]; simp only []; rw [← he, if_pos hs]; exact decode_withSign_zero _
+  · have hN : dyNum (m1 * m2) (e1 + e2) = 0 := by
+      have : m1 * m2 = 0 := by rcases h with h | h <;> simp [h]
+      unfold dyNum; rw [this]; split <;> simp
+    unfold mul; rw [ha, hb]; simp only []
+    unfold roundSigned; rw [if_pos hN]; exact decode_withSign_zero _
+  · have hN : dyNum m1 (e1 - e2) = 0 := by unfold dyNum; rw [h1]; split <;> simp
+    unfold div; rw [ha, hb]; simp only []; rw [if_neg h2]
+    unfold roundSigned; rw [if_pos hN]; exact decode_withSign_zero _
+
 /-! ## `fmod` is exact -/
 
 /-- C's `trunc` on a rational -/
